@@ -244,8 +244,8 @@ func TestVerifC13Watch(t *testing.T) {
 					if s, isStr := g.(string); !isStr || s != "[REDACTED]" {
 						out.Linef("viol sig=C13/effective/secret-in-effective-config where=watcher id=%s/%s path=%s", in.section, in.id(), l.path)
 					}
-				case l.enum && strings.EqualFold(c13Norm(g), c13Norm(l.v)):
-				case c13Norm(g) != c13Norm(l.v):
+				case l.enum && strings.EqualFold(c13Norm(g), c13Norm(l.want())):
+				case c13Norm(g) != c13Norm(l.want()):
 					out.Linef("viol sig=C13/effective/written-key-not-reflected where=watcher id=%s/%s path=%s wrote=%v got=%v", in.section, in.id(), l.path, l.v, g)
 				}
 				if l.secret && strings.Contains(text, l.v.(string)) {
